@@ -34,6 +34,8 @@ class Conn:
         self.ep = ep
         self._closed = False
         ep.open_handles += 1
+        self.owner = sim.sched.current  # the process (scheduler task) whose descriptor table holds this handle
+        sim.handles.append(self)
 
     def dup(self) -> "Conn":
         return Conn(self.sim, self.ep)
@@ -164,7 +166,19 @@ class SimProcess:
                 new_args.append(d)
             else:
                 new_args.append(a)
+        if self.sim.fork_inherit:
+            # start method "fork" (the Linux default, and what the class uses when no context is named): the child inherits a copy
+            # of EVERY descriptor open in the forking process at this instant, not only the ones it is handed; the copies it does
+            # not know about stay open until it exits and keep their pipe ends alive
+            me = self.sim.sched.current
+            passed = [a for a in self.args if isinstance(a, Conn)]
+            for h in list(self.sim.handles):
+                if not h._closed and h.owner is me and not any(h is q for q in passed):
+                    child_handles.append(h.dup())
+                    self.sim.count("fork_inherited_handle")
         self.task = self.sim.sched.spawn(self.name, self.target, tuple(new_args))
+        for h in child_handles:
+            h.owner = self.task
         self.task.exit_hooks.append(lambda: [h.close() for h in child_handles])
         self.sim.processes.append(self)
         self.sim.sched.yield_("process start")
@@ -217,8 +231,10 @@ class SimMP:
     Process = real_mp.Process
     Queue = real_mp.Queue
 
-    def __init__(self, sched: Scheduler, counter=None):
+    def __init__(self, sched: Scheduler, counter=None, fork_inherit: bool = False):
         self.sched = sched
+        self.fork_inherit = fork_inherit
+        self.handles: List[Conn] = []
         self.endpoints: List[Endpoint] = []
         self.processes: List[SimProcess] = []
         self._counter = counter
